@@ -18,9 +18,10 @@
 //!
 //!   lane A = the script on kanata started from file 0, cfg_paths = the n files.
 //!   lane B = the same script on btexts[start[0]] (no request is ever made); compared until A's first successful reload.
-//!   lane C = a fresh instance of the content A loaded (cfg_paths, cur_cfg_idx as in A), started at the first iteration
-//!            after that reload at which no physical key is held and A's loop would block (can_block = true); it
-//!            receives the script from the next step on.
+//!   lane C = a fresh instance of the content A loaded (cfg_paths, cur_cfg_idx as in A), created right after the
+//!            iteration of that reload and fed with the rest of the script (everything A's new layout sees); it is
+//!            shown (= compared) from the step after the first iteration at which no physical key is held and A's
+//!            loop would block (can_block = true).
 //!   That a reload took place is decided by ground truth (the layout object of A was replaced), not by A's messages.
 //!
 //! Output: {"e":"reset","job":id,"script":0,"params":..} then one line per step
@@ -344,7 +345,7 @@ fn run_case(names: &KeyNames, case: &Value, scratch: &Path, w: &mut dyn Write) -
     let a = run_lane(names, &text_o, &mut files, &start, 0, &steps, 0)?;
     let na = a.obs.len();
     let mut b: Option<LaneRun> = None;
-    let mut c: Option<(usize, LaneRun)> = None;
+    let mut c: Option<(usize, usize, LaneRun)> = None;
     if lanes {
         let tb = case["btexts"][&start[0]].as_str().ok_or("btexts for the start content")?.to_string();
         b = Some(run_lane(names, &tb, &mut files, &start, 0, &steps, 0)?);
@@ -365,16 +366,17 @@ fn run_case(names: &KeyNames, case: &Value, scratch: &Path, w: &mut dyn Write) -
             }
         }
         if let Some((si, p)) = sync {
-            let (_rs, idx, kind, _fstate) = p;
-            // file contents as they are at the sync point
+            let (rs, idx, kind, _fstate) = p;
+            // the fresh instance sees everything A's new layout has seen: it is fed from the step after the
+            // reload; it is compared (shown) from the idle point on.  File contents as they are at the reload.
             let mut fs = start.clone();
-            for st in steps.iter().take(si + 1) {
+            for st in steps.iter().take(rs + 1) {
                 if let Step::Write(i, k) = st {
                     fs[*i] = k.clone();
                 }
             }
             let tc = files.texts.get(kind).ok_or("loaded kind has no text")?.clone();
-            c = Some((si + 1, run_lane(names, &tc, &mut files, &fs, *idx, &steps, si + 1)?));
+            c = Some((rs + 1, si + 1, run_lane(names, &tc, &mut files, &fs, *idx, &steps, rs + 1)?));
         }
     }
     let first_repl = a.repls.first().map(|r| r.0);
@@ -395,7 +397,7 @@ fn run_case(names: &KeyNames, case: &Value, scratch: &Path, w: &mut dyn Write) -
             _ => off.clone(),
         };
         let lc = match &c {
-            Some((from, c)) if si >= *from && si - from < c.obs.len() => c.obs[si - from].clone(),
+            Some((from, shown, c)) if si >= *shown && si - from < c.obs.len() => c.obs[si - from].clone(),
             _ => off.clone(),
         };
         match &steps[si] {
@@ -441,7 +443,7 @@ fn run_case(names: &KeyNames, case: &Value, scratch: &Path, w: &mut dyn Write) -
     for (name, f) in [
         ("A", a.failure.as_ref()),
         ("B", b.as_ref().and_then(|x| x.failure.as_ref())),
-        ("C", c.as_ref().and_then(|x| x.1.failure.as_ref())),
+        ("C", c.as_ref().and_then(|x| x.2.failure.as_ref())),
     ] {
         if let Some(f) = f {
             let mut f = f.clone();
@@ -480,6 +482,26 @@ pub fn cmd(args: &[String]) -> i32 {
     writeln!(w, "{}", json!({"e":"end"})).unwrap();
     w.flush().unwrap();
     let _ = std::fs::remove_dir_all(&scratch);
+    0
+}
+
+/// reload-kinds <case.json> <out.json> <scratch dir>: which content kinds the real file loader accepts
+/// (cfg::new_from_file on a file with that content; "missing" / "unreadable" included)
+pub fn cmd_kinds(args: &[String]) -> i32 {
+    let case: Value = serde_json::from_reader(std::fs::File::open(&args[0]).expect("case file")).expect("case json");
+    let scratch = PathBuf::from(&args[2]).join(format!("files_{}", std::process::id()));
+    let mut files = Files::new(&scratch, 1, &case["texts"]);
+    let mut kinds: Vec<String> = files.texts.keys().cloned().collect();
+    kinds.push("missing".into());
+    kinds.push("unreadable".into());
+    let mut res = serde_json::Map::new();
+    for k in kinds {
+        files.write(0, &k).expect("write");
+        let ok = std::panic::catch_unwind(|| kanata_parser::cfg::new_from_file(&files.paths[0]).is_ok()).unwrap_or(false);
+        res.insert(k, json!(ok));
+    }
+    files.cleanup();
+    std::fs::write(&args[1], serde_json::to_string(&Value::Object(res)).unwrap()).unwrap();
     0
 }
 
